@@ -29,6 +29,10 @@ type compiler struct {
 	// typedefs whose type is being resolved, to detect "typedef a { type a; }"
 	// and longer cycles instead of recursing until the stack is gone
 	resolving map[*Typedef]bool
+
+	// imported modules already visited, modules that import each other
+	// would otherwise be walked until the stack is gone
+	imported map[*Module]bool
 }
 
 func (c *compiler) module(y *Module) error {
@@ -59,6 +63,13 @@ func (c *compiler) module(y *Module) error {
 }
 
 func (c *compiler) compileImport(m *Module) error {
+	if c.imported[m] {
+		return nil
+	}
+	if c.imported == nil {
+		c.imported = make(map[*Module]bool)
+	}
+	c.imported[m] = true
 	for _, i := range m.identities {
 		if err := c.compile(i); err != nil {
 			return err
